@@ -60,6 +60,7 @@ pub fn seed_from_env() -> u64 {
 pub fn budget(prop: &str, tier: &str) -> u64 {
     let quick = match prop {
         "C06" => 40_000,
+        "C17" => 40_000,
         _ => 60_000,
     };
     let scale = std::env::var("VERIF_SCALE").ok().and_then(|s| s.parse::<f64>().ok()).unwrap_or(1.0);
